@@ -1766,10 +1766,29 @@ def _log_action_or_intents(
         event_type = InternalEvents.BOT_ACTION_LOG
 
     if isinstance(meta_tag_parameters, str):
-        meta_tag_parameters = eval_expression(
-            '"' + meta_tag_parameters.replace('"', '\\"') + '"',
-            _get_eval_context(state, flow_state),
-        )
+        try:
+            meta_tag_parameters = eval_expression(
+                '"' + meta_tag_parameters.replace('"', '\\"') + '"',
+                _get_eval_context(state, flow_state),
+            )
+        except Exception as e:
+            # A faulty expression in a meta tag must not stop the processing of the event for
+            # all the other flows: it is reported and the intent/action of the flow is not logged
+            log.warning(
+                "Colang runtime exception while evaluating a meta tag of flow '%s': %s",
+                flow_state.flow_id,
+                e,
+                exc_info=True,
+            )
+            colang_error_event = Event(
+                name="ColangError",
+                arguments={
+                    "type": str(type(e).__name__),
+                    "error": str(e),
+                },
+            )
+            _push_internal_event(state, colang_error_event)
+            return
 
     if (
         event_type == InternalEvents.USER_INTENT_LOG
